@@ -303,6 +303,9 @@ def test_bulk():
     # list only
     assert results("u64", 3, ["new_vec h0 " + L3, "bulk h0 0:" + A, "bulk h1 0:" + A]) == [
         "ok", "err:badreg", "err:badreg"]
+    # iter_cow is list only too (SPEC.md `iter_cow A items` (list))
+    res, views = run("u64", 3, ["new_vec h0 " + L3, "iter_cow h0 _,%s" % E])
+    assert res == ["ok", "err:badreg"] and views[1] == views[0]
 
 
 def test_pop_front_apply_intra():
@@ -471,9 +474,11 @@ def test_kinds():
             "ok", "ok:" + ssz_ref.hash_tree_root_list(kind, 5, vals).hex(), "ok:" + y,
             "ok:%s|%d" % (data.hex(), len(data)), "err:WrongVectorLength{len:2,expected:5}", "ok",
             "ok:" + ssz_ref.hash_tree_root_vector(kind, 5, [vals[0]] * 5).hex()], kind
-    # level 0 of a packed kind with packing factor 1 (u256) is `P:` according to SPEC.md
+    # level 0 of a packed kind with packing factor 1 (u256): the one-value packed leaf is yielded
+    # as an internal node (`I:`), SPEC.md level_iter rule
     x = "01" + "00" * 31
-    assert results("u256", 4, ["new_list h0 %s,%s" % (x, x), "level_iter h0 1"]) == ["ok", "ok:P:" + x]
+    assert results("u256", 4, ["new_list h0 %s,%s" % (x, x), "level_iter h0 1"]) == ["ok", "ok:I:" + x]
+    assert results("u256", 1, ["new_list h0 " + x, "level_iter h0 0"]) == ["ok", "ok:I:" + x]
 
 
 def test_give_up():
@@ -565,6 +570,13 @@ def test_check_trace():
     cut = [i for i, ln in enumerate(good) if ln.startswith("R 4 ")][0]
     assert check_trace(h, good[:cut] + ["R 4 panic"]) == [
         Mismatch(4, "hash h0", "R 4 err:pending", "R 4 panic")]
+    # `abort` / `timeout` (harness --isolate: the child died in that operation) end a history
+    # exactly like `panic`
+    for word in ("abort", "timeout"):
+        assert check_trace(h, good[:cut] + ["R 4 " + word]) == [
+            Mismatch(4, "hash h0", "R 4 err:pending", "R 4 " + word)]
+    cut3 = good.index("R 3 ok:true")
+    assert check_trace(h, good[:cut3] + ["R 3 abort"]) == [Mismatch(3, "eq h0 h0", "R 3 ?", "R 3 abort")]
     # a truncated trace (no panic)
     assert check_trace(h, good[:cut]) == [Mismatch(4, "hash h0", "R 4 err:pending", None)]
     # surplus operations, wrong header
